@@ -1,6 +1,7 @@
 (* Extract/DrvC20.v — driver for C20: runs the very definitions the theorems of
    Props/C20.v are about (Model/C20Attr.v, Model/C20Ehabi.v, Spec/C20Attr.v, Spec/C20Ehabi.v).
    Request: (op args...).  Extracted with ExtrOcamlBasic only. *)
+From PV Require Import Gen.PyFuns.
 From PV Require Import Base.Outcome Base.Prim Spec.PrimSpec Model.C20Types
   Spec.C20Attr Spec.C20Ehabi Model.C20Attr Model.C20Ehabi.
 Open Scope string_scope.
@@ -100,7 +101,7 @@ Definition dispatch (req : sx) : sx :=
   else if op =? "attr_model" then
     sx_res sx_section (read_attr_section (g_impl a1) (gbool a2) (gB a3) (gI a4) (gI a5))
   (* ---- EHABI ---- *)
-  else if op =? "prel31_model" then SI (arm_expand_prel31 (gI a1) (gI a2))
+  else if op =? "prel31_model" then SI (PV.Gen.PyFuns.gen_arm_expand_prel31 (gI a1) (gI a2))   (* translated body; = hand model by theorem *)
   else if op =? "prel31_spec" then SI (prel31_spec (gI a1) (gI a2))
   else if op =? "eh_enc" then
     let a := g_entry a3 in
